@@ -45,6 +45,7 @@ type op struct {
 	Up     bool `json:"up,omitempty"`     // temporal up-switch point
 	NonRef bool `json:"nonref,omitempty"` // vp9 Z
 	NoL    bool `json:"nol,omitempty"`    // vp9 without layer indices (L=0): temporal and spatial layer 0, not an up-switch point
+	Intra  bool `json:"intra,omitempty"`  // vp9 P=0 on a frame that is not a keyframe (intra-only / refresh frame)
 	Late   bool `json:"late,omitempty"`
 	N      int  `json:"n,omitempty"`
 }
@@ -79,6 +80,9 @@ var presets = map[string]rtpconn.VerifLayer{
 	"init":      {},
 	"want-up":   {Tid: 0, WantedTid: 1, MaxTid: 2, Sid: 0, WantedSid: 1, MaxSid: 1},
 	"want-down": {Tid: 2, WantedTid: 0, MaxTid: 2, Sid: 1, WantedSid: 0, MaxSid: 1},
+	// waiting for a sync point to go back to the top of the layers seen so
+	// far, when the publisher starts a layer nobody has seen yet
+	"want-top-of-two": {Tid: 0, WantedTid: 1, MaxTid: 1, Sid: 0, WantedSid: 0, MaxSid: 0},
 }
 
 func fresh(vp9 bool, start uint16, preset string) func() seqx.World {
@@ -122,6 +126,8 @@ func (w *world) pktOps() []op {
 		}
 		ops = append(ops, op{Kind: "pkt", Tid: 0, Sidv: sid, Start: true, NonRef: true})
 	}
+	// frames without inter-picture prediction that are not keyframes
+	ops = append(ops, op{Kind: "pkt", Sidv: 0, Start: true, Intra: true}, op{Kind: "pkt", Sidv: 1, Start: true, Intra: true})
 	// packets of a stream (or of stretches of one) without layer indices
 	ops = append(ops, op{Kind: "pkt", NoL: true}, op{Kind: "pkt", NoL: true, Start: true}, op{Kind: "pkt", NoL: true, Start: true, K: true})
 	return ops
@@ -291,7 +297,7 @@ func (w *world) packet(o op, before rtpconn.VerifLayer) *core.Violation {
 			S: o.Start, Keyframe: o.K, Body: []byte{1, 2, 3}}.Bytes()
 	} else {
 		buf = media.VP9{Hdr: media.Hdr{Seq: seq, TS: uint32(p) * 3000, Marker: true, PT: 98, SSRC: fwd.UpSSRC},
-			I: true, M: true, L: !o.NoL, F: true, P: !o.K, PDiff: []uint8{1}, B: o.Start, E: true, Z: o.NonRef,
+			I: true, M: true, L: !o.NoL, F: true, P: !o.K && !o.Intra, PDiff: []uint8{1}, B: o.Start, E: true, Z: o.NonRef,
 			PictureID: 7, TID: uint8(o.Tid), U: o.Up, SID: uint8(o.Sidv), D: o.Sidv > 0,
 			Keyframe: o.K, Body: []byte{1, 2, 3}}.Bytes()
 	}
@@ -428,7 +434,7 @@ func allConfigs() []cfgDesc {
 		for _, s := range core.Pick([]uint16{100, 57344, 65535}, []uint16{100, 0, 57343, 57344, 65534, 65535, 32768}) {
 			cs = append(cs, cfgDesc{k, s, "init"})
 		}
-		cs = append(cs, cfgDesc{k, 100, "want-up"}, cfgDesc{k, 100, "want-down"})
+		cs = append(cs, cfgDesc{k, 100, "want-up"}, cfgDesc{k, 100, "want-down"}, cfgDesc{k, 100, "want-top-of-two"})
 	}
 	return cs
 }
